@@ -558,4 +558,478 @@ Proof.
 Qed.
 Hint Resolve triple_change_dir : trip.
 
+(* ---- every operation of a thread keeps the invariant ------------------------------------ *)
+Lemma triple_step o r : rinv r -> triple (step grow o r) rinv.
+Proof.
+  intros H. pose proof H as (He & Hf & Ha & Hd & Hs).
+  destruct o; unfold step.
+  - (* OAssign *) tgo.
+  - (* ODecl *) destruct v, (r_infunc r); tgo.
+  - (* OUnset *) tgo.
+  - tgo.
+  - tgo.
+  - (* OUnsetF *) tgo.
+  - (* OShift *)
+    destruct (Nat.leb (s_len (r_params r)) n); [tgo; unfold rinv; auto|].
+    eapply (triple_bind _ _ (fun _ => True)); [apply triple_lift; auto|].
+    intros; tgo; unfold rinv; auto.
+  - (* OSetParams *) tgo; unfold rinv; auto.
+  - (* OCd *) tgo.
+  - (* OPushd *)
+    eapply triple_bind; [apply triple_change_dir; auto|]. intros r' (He' & Hf' & Ha' & Hd' & Hs').
+    tgo; unfold rinv; simpl; auto.
+  - (* OPushdSwap *) tgo.
+  - (* OPopd *)
+    destruct (Nat.ltb (s_len (r_dirstack r)) 2); [tgo|].
+    eapply triple_bind; [apply triple_reslice; eauto|]. intros d Hd'.
+    eapply triple_bind; [eauto with trip|]. intros nt _.
+    apply triple_change_dir. unfold rinv; simpl; auto.
+  - (* OAlias *) destruct (r_alias r) eqn:E; tgo; unfold rinv; simpl; rewrite ?E; auto.
+  - (* OUnalias *) destruct (r_alias r) eqn:E; tgo.
+  - (* OFuncDef *) destruct (r_funcs r) eqn:E; tgo; unfold rinv; simpl; rewrite ?E; auto.
+  - (* OSetOpt *) tgo; unfold rinv; auto.
+  - (* OCallBegin *)
+    eapply triple_bind; [eauto with trip|]. intros p _.
+    eapply triple_bind; [apply triple_o_alloc; intros ? ? [= <- _]; exact He|]. intros e Oe.
+    apply triple_ret. unfold rinv; simpl. repeat split; auto.
+  - (* OCallEnd *)
+    destruct (r_stack r) as [|fr rest] eqn:E; [tgo|].
+    apply triple_ret. inversion Hs; subst. unfold rinv; simpl; auto.
+Qed.
+
+Lemma step_state_inv s o :
+  rinv (st_r s) -> hinv (st_h s) ->
+  frame (st_h s) (st_h (step_state grow s o)) /\ rinv (st_r (step_state grow s o)) /\
+  hinv (st_h (step_state grow s o)).
+Proof.
+  intros Hr Hi. unfold step_state. destruct (st_panic s).
+  { tsplit; auto using frame_refl. }
+  destruct (triple_step o (st_r s) Hr (st_h s) Hi) as (F & I & P).
+  destruct (step grow o (st_r s) (st_h s)) as [[r'|e|] h']; simpl in *; tsplit; auto.
+Qed.
+
+Lemma run_ops_inv ops : forall s,
+  rinv (st_r s) -> hinv (st_h s) ->
+  frame (st_h s) (st_h (run_ops grow ops s)) /\ rinv (st_r (run_ops grow ops s)) /\
+  hinv (st_h (run_ops grow ops s)).
+Proof.
+  induction ops as [|o ops IH]; intros s Hr Hi; simpl.
+  - tsplit; auto using frame_refl.
+  - destruct (step_state_inv s o Hr Hi) as (F & R & I).
+    destruct (IH _ R I) as (F2 & R2 & I2). tsplit; auto. eapply frame_trans; eauto.
+Qed.
+
+(* ---- Runner.subshell ---------------------------------------------------------------------- *)
+Lemma triple_set_all e : forall l, owno e -> triple (set_all e l) (fun _ => True).
+Proof.
+  induction l as [|[n v] l IH]; intros Oe; cbn [set_all]; [tgo|].
+  eapply triple_bind; [eapply triple_ignore_err; apply triple_env_set; auto|]. intros; auto.
+Qed.
+
+Lemma triple_subshell bg r : triple (subshell grow bg r) rinv.
+Proof.
+  unfold subshell.
+  eapply (triple_bind _ _ owno).
+  { destruct bg.
+    - eapply triple_bind; [apply triple_o_alloc; intros ? ? [=]|]. intros e Oe.
+      eapply triple_bind; [eauto with trip|]. intros all _.
+      eapply triple_bind; [apply triple_set_all; auto|]. intros; tgo.
+    - apply triple_o_alloc; intros ? ? [=]. }
+  intros e Oe.
+  eapply (triple_bind _ _ own_opt).
+  { unfold map_clone_funcs. destruct (r_funcs r); tgo. }
+  intros f Of.
+  eapply (triple_bind _ _ own_opt).
+  { unfold map_clone_alias. destruct (r_alias r); tgo. }
+  intros a Oa'.
+  tgo. unfold rinv; simpl; auto.
+Qed.
+
 End Own.
+
+(* ======================================================================================= *)
+(* What a Runner observes depends only on the cells that existed when the
+   observation's roots were created.                                                        *)
+
+Definition agree (na no : nat) (h h' : heaps) : Prop :=
+  (forall l, l < na -> nth_error (ha h') l = nth_error (ha h) l) /\
+  (forall l, l < no -> nth_error (ho h') l = nth_error (ho h) l).
+
+Definition wf_slice (na : nat) (s : slice) : Prop :=
+  match s with SNil => True | Sl l _ _ _ => l < na end.
+Definition opt_lt (no : nat) (o : option loc) : Prop :=
+  match o with Some l => l < no | None => True end.
+Definition wf_var (na no : nat) (v : variable) : Prop :=
+  wf_slice na (v_list v) /\ wf_slice na (v_idx v) /\ opt_lt no (v_map v).
+Definition wf_vals (na no : nat) (vals : list (str * variable)) : Prop :=
+  Forall (fun nv => wf_var na no (snd nv)) vals.
+Definition wf_cell (na no : nat) (l : loc) (c : ocell) : Prop :=
+  match c with
+  | CEnv p _ vals => match p with Some p' => p' < l | None => True end /\ wf_vals na no vals
+  | CBase vals => wf_vals na no vals
+  | _ => True
+  end.
+(* no dangling pointers: what Go's memory safety guarantees of any reachable state *)
+Definition wf_heap (h : heaps) : Prop :=
+  forall l c, nth_error (ho h) l = Some c -> wf_cell (length (ha h)) (length (ho h)) l c.
+Definition wf_runner (r : runner) (h : heaps) : Prop :=
+  r_env r < length (ho h) /\ opt_lt (length (ho h)) (r_funcs r) /\ opt_lt (length (ho h)) (r_alias r) /\
+  wf_slice (length (ha h)) (r_dirstack r) /\ wf_slice (length (ha h)) (r_params r).
+
+Section Agree.
+Variables h h' : heaps.
+Let na := length (ha h).
+Let no := length (ho h).
+Hypothesis AG : agree na no h h'.
+Hypothesis WF : wf_heap h.
+
+Lemma elems_agree s : wf_slice na s -> elems (ha h') s = elems (ha h) s.
+Proof.
+  destruct s as [|l o n c]; simpl; auto. intros L. unfold arr.
+  rewrite (nth_of_nth_error (ha h) (ha h') l []); auto. apply AG; auto.
+Qed.
+
+Lemma bind_o_get {B} e (f : ocell -> M B) g :
+  bind (o_get e) f g = match nth_error (ho g) e with Some c => f c g | None => (Panic, g) end.
+Proof. unfold bind, o_get. destruct (nth_error (ho g) e); reflexivity. Qed.
+
+Lemma al_get_wf name vals v : wf_vals na no vals -> al_get name vals = Some v -> wf_var na no v.
+Proof.
+  induction 1 as [|[k x] t Hx Ht IH]; simpl; [discriminate|].
+  destruct (str_eqb k name); auto. intros [= <-]; auto.
+Qed.
+
+Lemma wf_var0 : wf_var na no var0.
+Proof. unfold wf_var, var0; simpl; auto. Qed.
+
+Lemma env_get_agree fuel : forall e name, e < no ->
+  fst (env_get fuel e name h') = fst (env_get fuel e name h) /\
+  (forall v, fst (env_get fuel e name h) = Ok v -> wf_var na no v).
+Proof.
+  induction fuel; intros e name L; simpl; [split; auto; discriminate|].
+  rewrite !bind_o_get. destruct AG as [_ AGo]. rewrite (AGo e L).
+  destruct (nth_error (ho h) e) as [c|] eqn:E; [|split; auto; discriminate].
+  pose proof (WF e c E) as W.
+  destruct c; simpl; try (split; auto; discriminate).
+  - destruct W as [Wp Wv].
+    destruct (al_get name vals) eqn:G.
+    + simpl. split; auto. intros v0 [= <-]. eapply al_get_wf; eauto.
+    + destruct parent as [p'|].
+      * apply IHfuel. fold no. lia.
+      * simpl. split; auto. intros v0 [= <-]. apply wf_var0.
+  - split; auto. intros v0 [= <-]. destruct (al_get name vals) eqn:G.
+    + eapply al_get_wf; eauto.
+    + apply wf_var0.
+Qed.
+
+Lemma env_each_agree fuel : forall e, e < no ->
+  fst (env_each fuel e h') = fst (env_each fuel e h).
+Proof.
+  induction fuel; intros e L; simpl; auto.
+  rewrite !bind_o_get. destruct AG as [_ AGo]. rewrite (AGo e L).
+  destruct (nth_error (ho h) e) as [c|] eqn:E; auto.
+  pose proof (WF e c E) as W.
+  destruct c; simpl; auto.
+  destruct W as [Wp Wv]. destruct parent as [p'|]; simpl; auto.
+  assert (Lp : p' < no) by (fold no; lia).
+  specialize (IHfuel p' Lp).
+  unfold bind.
+  pose proof (readonly_env_each fuel p' h') as R1. pose proof (readonly_env_each fuel p' h) as R2.
+  destruct (env_each fuel p' h') as [r1 g1]; destruct (env_each fuel p' h) as [r2 g2]; simpl in *; subst.
+  destruct r2; reflexivity.
+Qed.
+
+Lemma map_read_agree m : opt_lt no m -> fst (map_read m h') = fst (map_read m h).
+Proof.
+  destruct m as [l|]; simpl; auto. intros L. rewrite !bind_o_get.
+  destruct AG as [_ AGo]. rewrite (AGo l L).
+  destruct (nth_error (ho h) l) as [c|]; auto. destruct c; reflexivity.
+Qed.
+Lemma funcs_read_agree m : opt_lt no m -> fst (funcs_read m h') = fst (funcs_read m h).
+Proof.
+  destruct m as [l|]; simpl; auto. intros L. rewrite !bind_o_get.
+  destruct AG as [_ AGo]. rewrite (AGo l L).
+  destruct (nth_error (ho h) l) as [c|]; auto. destruct c; reflexivity.
+Qed.
+Lemma alias_read_agree m : opt_lt no m -> fst (alias_read m h') = fst (alias_read m h).
+Proof.
+  destruct m as [l|]; simpl; auto. intros L. rewrite !bind_o_get.
+  destruct AG as [_ AGo]. rewrite (AGo l L).
+  destruct (nth_error (ho h) l) as [c|]; auto. destruct c; reflexivity.
+Qed.
+
+Lemma resolve_var_agree v : wf_var na no v -> resolve_var h' v = resolve_var h v.
+Proof.
+  intros (W1 & W2 & W3). unfold resolve_var.
+  rewrite (elems_agree _ W1), (elems_agree _ W2).
+  destruct (v_map v) as [l|] eqn:E; auto.
+  rewrite (map_read_agree (Some l)); auto.
+Qed.
+
+Lemma observe_var_agree r name : r_env r < no -> observe_var r h' name = observe_var r h name.
+Proof.
+  intros L. unfold observe_var, lookup_var, bind.
+  destruct (env_get_agree (chain_fuel (r_env r)) (r_env r) name L) as [E W].
+  destruct (env_get (chain_fuel (r_env r)) (r_env r) name h') as [r1 g1].
+  destruct (env_get (chain_fuel (r_env r)) (r_env r) name h) as [r2 g2]. simpl in *. subst r1.
+  destruct r2 as [v| |]; simpl; auto.
+  f_equal. apply resolve_var_agree.
+  destruct (declared v); [apply W; auto | apply wf_var0].
+Qed.
+
+Lemma observe_agree r : wf_runner r h -> observe r h' = observe r h.
+Proof.
+  intros (L & Lf & La & Ld & Lp). unfold observe.
+  rewrite (funcs_read_agree _ Lf), (alias_read_agree _ La), (elems_agree _ Ld), (elems_agree _ Lp).
+  f_equal.
+  pose proof (env_each_agree (chain_fuel (r_env r)) (r_env r) L) as E.
+  destruct (env_each (chain_fuel (r_env r)) (r_env r) h') as [r1 g1].
+  destruct (env_each (chain_fuel (r_env r)) (r_env r) h) as [r2 g2]. simpl in E. subst r1.
+  destruct r2; auto. f_equal. apply map_ext. intros nv. f_equal. apply observe_var_agree; auto.
+Qed.
+
+End Agree.
+
+(* ======================================================================================= *)
+(* C27: a subshell and everything it runs leave the parent's observation unchanged           *)
+
+Lemma run_ops_panic grow ops : forall s, st_panic s = true -> run_ops grow ops s = s.
+Proof.
+  induction ops as [|o ops IH]; intros s H; simpl; auto.
+  assert (E : step_state grow s o = s) by (unfold step_state; rewrite H; auto).
+  rewrite E. apply IH; auto.
+Qed.
+
+Section Isolated.
+Variable grow : nat -> nat -> nat.
+Variables (r : runner) (h : heaps).
+Let owna := fun l => length (ha h) <= l.
+Let owno := fun l => length (ho h) <= l.
+
+Lemma hinv_start : hinv owna owno h.
+Proof.
+  split; [split; auto|]. intros l p vals Ol E.
+  assert (nth_error (ho h) l = None) by (apply nth_error_None; auto). congruence.
+Qed.
+
+Lemma frame_agree g : frame owna owno h g -> agree (length (ha h)) (length (ho h)) h g.
+Proof.
+  intros (_ & _ & A & O). split; intros l L; [apply A | apply O]; unfold owna, owno; lia.
+Qed.
+
+Lemma child_frame bg ops :
+  frame owna owno h (st_h (run_ops grow ops (subshell_state grow bg r h))).
+Proof.
+  unfold subshell_state.
+  destruct (triple_subshell grow owna owno bg r h hinv_start) as (F & I & P).
+  destruct (subshell grow bg r h) as [[r2|e|] h1]; simpl in *.
+  - destruct (run_ops_inv grow owna owno ops (mkSt r2 h1 false) (P r2 eq_refl) I) as (F2 & _ & _).
+    simpl in F2. eapply frame_trans; eauto.
+  - rewrite run_ops_panic; auto.
+  - rewrite run_ops_panic; auto.
+Qed.
+
+Theorem isolated bg ops :
+  wf_heap h -> wf_runner r h ->
+  observe r (st_h (run_ops grow ops (subshell_state grow bg r h))) = observe r h.
+Proof.
+  intros WH WR. apply observe_agree; auto. apply frame_agree. apply child_frame.
+Qed.
+
+(* the invariant itself: every cell that existed when the subshell was created is untouched *)
+Theorem child_writes_only_own_cells bg ops :
+  let g := st_h (run_ops grow ops (subshell_state grow bg r h)) in
+  (forall l, l < length (ha h) -> nth_error (ha g) l = nth_error (ha h) l) /\
+  (forall l, l < length (ho h) -> nth_error (ho g) l = nth_error (ho h) l).
+Proof. apply frame_agree, child_frame. Qed.
+
+End Isolated.
+
+(* ======================================================================================= *)
+(* C32 (model level): each thread only writes what it owns                                   *)
+
+Section Threads.
+Variable grow : nat -> nat -> nat.
+
+(* the thread that continues in the parent Runner: P marks the cells only it can reach
+   (its overlay chain, Funcs, alias, dirStack array); everything allocated later is its own *)
+Theorem parent_writes_only_own_cells (Pa Po : loc -> Prop) r h ops :
+  let owna := fun l => Pa l \/ length (ha h) <= l in
+  let owno := fun l => Po l \/ length (ho h) <= l in
+  rinv owna owno r -> fs_closed owno h ->
+  let g := st_h (run_ops grow ops (mkSt r h false)) in
+  (forall l, l < length (ha h) -> ~ Pa l -> nth_error (ha g) l = nth_error (ha h) l) /\
+  (forall l, l < length (ho h) -> ~ Po l -> nth_error (ho g) l = nth_error (ho h) l).
+Proof.
+  intros owna owno R C g.
+  assert (Hi : hinv owna owno h).
+  { split; auto. split; intros l L; right; auto. }
+  destruct (run_ops_inv grow owna owno ops (mkSt r h false) R Hi) as ((_ & _ & A & O) & _ & _).
+  split; intros l L N; [apply A | apply O]; unfold owna, owno; intros [X|X]; auto; lia.
+Qed.
+
+End Threads.
+
+(* ---- bgProcs / wait ------------------------------------------------------------------------ *)
+Definition good_job (j : job) : Prop :=
+  (j_pc j = 0 /\ j_done j = false) \/ j_exit j = j_status j.
+
+Lemma map_set_nth {A B} (f : A -> B) (l : list A) i x :
+  nth_error l i <> None -> f x = match nth_error l i with Some y => f y | None => f x end ->
+  map f (set_nth l i x) = map f l.
+Proof.
+  revert i; induction l as [|a l IH]; intros [|i] H E; simpl in *; auto; try congruence.
+  f_equal. apply IH; auto.
+Qed.
+
+Lemma Forall_set_nth {A} (P : A -> Prop) (l : list A) i x : Forall P l -> P x -> Forall P (set_nth l i x).
+Proof.
+  intros H; revert i; induction H; intros [|i] Px; simpl; auto.
+Qed.
+
+Lemma good_job_step j : good_job j -> good_job (job_step j).
+Proof.
+  unfold good_job, job_step. intros [[P D]|E].
+  - rewrite P. simpl. auto.
+  - destruct (j_pc j) as [|[|k]]; simpl; auto.
+Qed.
+
+Lemma run_events_inv evs : forall js,
+  Forall good_job js ->
+  Forall good_job (run_events evs js) /\
+  map j_status (run_events evs js) = map j_status js ++ spawned evs.
+Proof.
+  induction evs as [|e evs IH]; intros js G; simpl.
+  - rewrite app_nil_r; auto.
+  - destruct e as [s|i]; simpl.
+    + destruct (IH (js ++ [mkJob 0 false 0 s])) as [G' M'].
+      { apply Forall_app; split; auto. constructor; auto. left; auto. }
+      split; auto. rewrite M', map_app, <- app_assoc. reflexivity.
+    + destruct (nth_error js i) as [j|] eqn:E; [|apply IH; auto].
+      destruct (IH (set_nth js i (job_step j))) as [G' M'].
+      { apply Forall_set_nth; auto. apply good_job_step.
+        eapply Forall_forall; eauto. eapply nth_error_In; eauto. }
+      split; auto. rewrite M'. f_equal. apply map_set_nth; try congruence.
+      rewrite E. unfold job_step. destruct (j_pc j) as [|[|k]]; reflexivity.
+Qed.
+
+Lemma done_pc evs : forall js,
+  Forall (fun j => j_done j = true -> 1 <= j_pc j) js ->
+  Forall (fun j => j_done j = true -> 1 <= j_pc j) (run_events evs js).
+Proof.
+  induction evs as [|e evs IH]; intros js G; simpl; auto.
+  destruct e as [s|i]; simpl.
+  - apply IH. apply Forall_app; split; auto. constructor; auto. simpl; discriminate.
+  - destruct (nth_error js i) as [j|] eqn:E; [|apply IH; auto].
+    apply IH. apply Forall_set_nth; auto.
+    assert (Hj : j_done j = true -> 1 <= j_pc j).
+    { eapply (proj1 (Forall_forall _ _) G). eapply nth_error_In; eauto. }
+    unfold job_step. destruct (j_pc j) as [|[|k]] eqn:P; simpl; auto. intros D. apply Hj in D. lia.
+Qed.
+
+Theorem wait_status evs n st :
+  wait_result (run_events evs []) (S n) = Some (Ok st) -> nth_error (spawned evs) n = Some st.
+Proof.
+  simpl. destruct (run_events_inv evs [] (Forall_nil _)) as [G M]. simpl in M.
+  pose proof (done_pc evs [] (Forall_nil _)) as D.
+  destruct (nth_error (run_events evs []) n) as [j|] eqn:E; [|discriminate].
+  destruct (j_done j) eqn:Dj; [|discriminate]. intros [= <-].
+  rewrite <- M. rewrite nth_error_map, E. simpl. f_equal.
+  assert (Gj : good_job j) by (eapply (proj1 (Forall_forall _ _) G); eapply nth_error_In; eauto).
+  destruct Gj as [[P Dn]|X]; auto. congruence.
+Qed.
+
+Theorem wait_not_child evs n :
+  length (spawned evs) <= n -> wait_result (run_events evs []) (S n) = Some (Err 1%N).
+Proof.
+  simpl. destruct (run_events_inv evs [] (Forall_nil _)) as [G M]. simpl in M.
+  intros L. assert (nth_error (run_events evs []) n = None) as ->; auto.
+  apply nth_error_None. rewrite <- (map_length j_status), M. auto.
+Qed.
+
+(* once job n has taken its two steps, wait returns *)
+Theorem wait_returns evs n :
+  (exists j, nth_error (run_events evs []) n = Some j /\ j_pc j = 2) ->
+  exists st, wait_result (run_events evs []) (S n) = Some (Ok st).
+Proof.
+  intros (j & E & P). simpl. rewrite E.
+  assert (Forall (fun j => j_pc j = 2 -> j_done j = true) (run_events evs [])) as F.
+  { clear. generalize (@nil job) (Forall_nil (fun j => j_pc j = 2 -> j_done j = true)).
+    induction evs as [|e evs IH]; intros js G; simpl; auto.
+    destruct e as [s|i]; simpl.
+    - apply IH. apply Forall_app; split; auto. constructor; auto. simpl; discriminate.
+    - destruct (nth_error js i) as [j|] eqn:E; [|apply IH; auto].
+      apply IH. apply Forall_set_nth; auto.
+      assert (Hj : j_pc j = 2 -> j_done j = true).
+      { eapply (proj1 (Forall_forall _ _) G). eapply nth_error_In; eauto. }
+      unfold job_step. destruct (j_pc j) as [|[|k]] eqn:P; simpl; auto; try discriminate.
+      intros; apply Hj; congruence. }
+  rewrite (proj1 (Forall_forall _ _) F j (nth_error_In _ _ E) P). eauto.
+Qed.
+
+(* ======================================================================================= *)
+(* concrete witnesses                                                                         *)
+Open Scope N_scope.
+Definition ex_grow (old need : nat) : nat := need.
+Definition ex_base : state :=
+  mkSt (mkR 1%nat None None [] [] SNil SNil false []) (mkH [] [CBase []; CEnv (Some 0%nat) false []]) false.
+(* parent: a=(x y); m=(["k"]=v); f() { ..1.. } *)
+Definition ex_parent_ops : list op :=
+  [ OAssign [97] None false (RArr [(None, [120]); (None, [121])]);
+    OAssign [109] None false (RAssocLit [([107], [118])]);
+    OFuncDef [102] 1 ].
+Definition ex_parent : state := run_ops ex_grow ex_parent_ops ex_base.
+(* child: a+=z; a[1]=w; m[k]=u; unset -f f; cd /t *)
+Definition ex_child_ops : list op :=
+  [ OAssign [97] None true (RStr [122]);
+    OAssign [97] (Some (1%Z, [49])) false (RStr [119]);
+    OAssign [109] (Some (0%Z, [107])) false (RStr [117]);
+    OUnsetF [102];
+    OCd [47; 116] ].
+Close Scope N_scope.
+
+Lemma ex_parent_wf : wf_heap (st_h ex_parent) /\ wf_runner (st_r ex_parent) (st_h ex_parent).
+Proof.
+  split.
+  - intros l c E. vm_compute in E.
+    do 4 (destruct l as [|l]; [injection E as <-; vm_compute; repeat (split || constructor); auto; lia|]).
+    destruct l; discriminate.
+  - vm_compute. repeat split; auto; lia.
+Qed.
+
+(* the child really changes what it sees itself (the theorem is not about no-ops) *)
+Definition ex_child (bg : bool) : state :=
+  run_ops ex_grow ex_child_ops (subshell_state ex_grow bg (st_r ex_parent) (st_h ex_parent)).
+Lemma ex_child_sees_change bg :
+  observe_var (st_r (ex_child bg)) (st_h (ex_child bg)) [97%N] <>
+  observe_var (st_r ex_parent) (st_h ex_parent) [97%N].
+Proof. unfold not; intro E. destruct bg; vm_compute in E; discriminate E. Qed.
+
+(* the last stage of a pipeline runs in the parent Runner itself *)
+Lemma pipeline_last_stage_changes_parent :
+  exists r h right_,
+    wf_heap h /\ wf_runner r h /\
+    observe (st_r (pipeline ex_grow [] right_ r h)) (st_h (pipeline ex_grow [] right_ r h)) <> observe r h.
+Proof.
+  exists (st_r ex_parent), (st_h ex_parent), [OAssign [97%N] None false (RStr [53%N])].
+  destruct ex_parent_wf as [A B]. split; [exact A | split; [exact B |]].
+  unfold not; intro E. vm_compute in E. discriminate E.
+Qed.
+
+(* the code before fix d35f0af: assignVal's `prev.List[0] += s` without cloning *)
+Definition old_append_scalar (r : runner) (name s : str) : M unit :=
+  prev <- lookup_var r name ;;
+  old <- m_index (v_list prev) 0 ;;
+  _ <- m_store (v_list prev) 0 (VS (val_str old ++ s)) ;;
+  set_var r name (with_set true prev).
+Definition old_child_heap (bg : bool) (r : runner) (h : heaps) : heaps :=
+  snd (old_append_scalar (st_r (subshell_state ex_grow bg r h)) [97%N] [122%N]
+                         (st_h (subshell_state ex_grow bg r h))).
+
+Lemma old_append_scalar_changes_parent bg :
+  exists r h, wf_heap h /\ wf_runner r h /\ observe r (old_child_heap bg r h) <> observe r h.
+Proof.
+  exists (st_r ex_parent), (st_h ex_parent).
+  destruct ex_parent_wf as [A B]. split; [exact A | split; [exact B |]].
+  unfold not; intro E. destruct bg; vm_compute in E; discriminate E.
+Qed.
